@@ -170,3 +170,58 @@ func zzC10Tillage(n, mix int) {
 	vAssert("C07.tillage_preserves_mineral_n", vNear(sums1[4], sums0[4], eps))
 	vAssert("C10.till.cursor_advances_by_one", g.NTIL.Index == 1)
 }
+
+func init() {
+	vRegister("zzC16AutoFert", func(a []int) { zzC16AutoFert(a[0]) })
+}
+
+// every automatically computed N application (all six sites of the AUTOFERT branch) is non-negative
+func zzAssertAmount(name string, amount, nh4 float64) error {
+	vAssert("C16.autofert.amount_nonneg", amount >= 0)
+	vCover("C16.autofert.cover_application")
+	return nil
+}
+
+func zzC16AutoFert(wurz int) {
+	g := new(GlobalVarsMain)
+	ln := new(NitroBBBSharedVars)
+	g.AUTOFERT = true
+	g.AKF = NewDualType(1, 1)
+	g.TAG = NewDualType(0, 1)
+	doy := vInt("doy")
+	vAssume(doy >= 6 && doy <= 360)
+	g.TAG.SetByIndex(doy - 1)
+	g.INTWICK = NewDualType(0, 1)
+	stage := vInt("stage")
+	vAssume(stage >= 1 && stage <= 9)
+	g.INTWICK.SetByIndex(stage - 1)
+	g.Kalender = func(int) string { return "date" }
+	g.WURZ = wurz
+	zeit := vInt("zeit")
+	vAssume(zeit >= 10 && zeit <= 80000)
+	g.SAAT[1] = vInt("saat")
+	vAssume(g.SAAT[1] >= 1 && g.SAAT[1] <= zeit)
+	g.ODU[1] = 0
+	g.ODU[0] = 0
+	g.ORGTIME[0] = "S"
+	for k := 0; k < 3; k++ {
+		g.C1[k] = vFloat("c1", k)
+		vAssume(g.C1[k] >= 0)
+	}
+	g.NDOY1[1], g.NDOY2[1], g.NDOY3[1] = vFloat("ndoy1"), vFloat("ndoy2"), vFloat("ndoy3")
+	vAssume(g.NDOY1[1] >= 0 && g.NDOY2[1] >= 0 && g.NDOY3[1] >= 0 && g.NDOY1[1] <= 400 && g.NDOY2[1] <= 400 && g.NDOY3[1] <= 400)
+	g.NDEM1[1], g.NDEM2[1], g.NDEM3[1] = vFloat("ndem1"), vFloat("ndem2"), vFloat("ndem3")
+	vAssume(g.NDEM1[1] >= 0 && g.NDEM2[1] >= 0 && g.NDEM3[1] >= 0)
+	// the day-of-year trigger looks five days back and one day ahead
+	for d := 0; d < 7; d++ {
+		_ = d
+	}
+	g.DSUMM = vFloat("dsumm")
+	g.NFERTSIM = vFloat("nfertsim")
+	dsumm0, nf0 := g.DSUMM, g.NFERTSIM
+	var runErr error
+	_, err, ctl := zzR_FertCursor(1, zeit, g, ln, false, &runErr, zzAssertAmount)
+	vCover("C16.autofert.reach")
+	vAssert("C16.autofert.falls_through", ctl == 0 && err == nil)
+	vAssert("C16.autofert.fertiliser_sums_never_decrease", g.DSUMM >= dsumm0 && g.NFERTSIM >= nf0)
+}
